@@ -8,6 +8,7 @@ import M17.Model.Crc
 import M17.Spec.Crc
 import M17.Model.Cond
 import M17.Model.Puncture
+import M17.Model.Callsign
 
 open M17
 
@@ -72,6 +73,8 @@ def handle (st : DrvState) (op : String) (a : List Int) : DrvState × String :=
     let prev := (rest.drop n_in.toNat).map Int.toNat
     let (out, n) := Punct.punctureBytes (pmat P.toNat) xs prev
     (st, joinNats (n :: out))
+  | "call_enc", v => (st, joinNats (Call.encode ((v.map Int.toNat) ++ List.replicate (10 - v.length) 0)))
+  | "call_dec", v => (st, joinNats (Call.decode (v.map Int.toNat)))
   | _, _ => (st, "bad-op")
 
 partial def loop (h : IO.FS.Stream) (out : IO.FS.Stream) (st : DrvState) : IO Unit := do
